@@ -58,6 +58,10 @@ TRUSTED = [
     "a batch_alter_table block is abstracted to the statement list ddl(create tmp) | dml(copy, no visible effect) | ddl(drop) | ddl(rename = "
     "column appears/disappears); the individual effects of the last two are never durable separately on the validated backends "
     "(harness/online_impl.py:batch_stmts)",
+    "offline stream: the emitted script is applied with the sqlite3 module in autocommit mode, so the script's own BEGIN/COMMIT are the only "
+    "transaction framing (a transaction left open is rolled back at close); splitting at ';\\n' (harness/online_impl.py:split_script); "
+    "without transactional DDL a failure in the on_version_apply hook (after the version statement was emitted) is judged as a failure "
+    "before the next migration, because for the script migration k is then complete and recorded",
     "observation: sqlite_master table names, rows of the `data` table and alembic_version rows through a fresh connection "
     "(harness/online_impl.py:observe)",
 ]
@@ -79,7 +83,11 @@ RULE = (
     "begin_transaction() (get_current_heads / connection SELECT / context.execute) and run_migrations() without the outer "
     "begin_transaction() (only where that level is a nullcontext): round robin over the configs of every random in-process script, and "
     "on the command path (patched generic env.py) every variant x 4 settings (all 8 in thorough) x every failure position for a script "
-    "with and one without autocommit blocks; (7) op.batch_alter_table() blocks in migration bodies (SQLite move-and-copy, recreate always/auto, add column on upgrade, "
+    "with and one without autocommit blocks; (8) an offline (--sql) stream: the same bodies run in as_sql mode (sqlite dialect, transactional_ddl {default,True} x "
+    "transaction_per_migration; MigrationContext in-process and command.upgrade(sql=True) with the shipped env.py), failing at every "
+    "body position (outside and inside autocommit blocks) and in the on_version_apply hook; the command must fail and the script "
+    "emitted so far, applied statement by statement to a database in the start state, is judged by the same spec; "
+    "(7) op.batch_alter_table() blocks in migration bodies (SQLite move-and-copy, recreate always/auto, add column on upgrade, "
     "drop column on downgrade; 30% of the random revisions that create a table, plus fixed scripts in all four (transactional_ddl, "
     "transaction_per_migration) settings x both engines), failure positions also between the statements of the block; "
     "(6) a hand-written two-database env.py with different settings per configure() call (all 16 "
@@ -352,7 +360,10 @@ def judge(ctx, pending):
         obs = {k: impl["final"][k] for k in ("objs", "rows", "vt")}
         bad_obs = impl["final"]["unknown"] or impl["final"]["dup_rows"] or impl["final"]["dup_data"]
         raised = impl["res"] != "ok"
-        if "err" in m or bad_obs or m.get("final") != obs or m.get("raised") != raised:
+        if meta.get("spec_only"):
+            if bad_obs:  # offline stream: no online model run to compare with; the replayed state is judged by the spec
+                ctx.disagree("offline.observe", rec, {"final": impl["final"]}, None)
+        elif "err" in m or bad_obs or m.get("final") != obs or m.get("raised") != raised:
             ctx.disagree("online.run", rec, {"res": impl["res"], "final": impl["final"]}, m)
         else:
             ctx.trace_ok()
@@ -722,6 +733,127 @@ def twodb_battery(ctx, pending, thorough):
                             ctx.hist("configure() pairs (own settings db1 -> db2)", "%s -> %s" % (c1, c2))
 
 
+# ------------------------------------------------------------------------------------------ offline (--sql) stream
+# The emitted script is what a user applies later.  Oracle: (1) a migration that raises makes the command fail (the
+# exception propagates); (2) the script emitted up to then, applied statement by statement to a database in the start state,
+# leaves a version table / schema that Spec.Online.check accepts for the configured settings (rows at a migration boundary,
+# failed revision never named / never dropped, exact state with transactional DDL, rows = completed migrations without).
+
+def has_batch(script):
+    return any(seg.get("batch") for b in script["bodies"].values() for d in b.values() for seg in d)
+
+
+def offline_cases(ctx, script, configs, scratch, runner="offline"):
+    hist = script["hist"]
+    rev_index = {r["id"]: i for i, r in enumerate(hist)}
+    ids = [r["id"] for r in hist]
+    parents = parents_of(hist, rev_index)
+    base = prepare_base(scratch, script, rev_index, "base_off.sqlite")
+    if base is None:
+        ctx.hist("setup", "failed")
+        return
+    db0 = oi.observe(base, rev_index)
+    start_rows = [ids[i] for i in db0["rows"]]
+    work = os.path.join(scratch, "work_off.sqlite")
+    cfg_obj = None
+    if runner == "command-sql":
+        cfg_obj = oi.make_script_dir(scratch, hist, base, name="scripts_sql")
+
+    def execute(config, fail):
+        import io
+
+        if runner == "offline":
+            res, orc, text = oi.run_offline(hist, script["bodies"], rev_index, script["cmd"], script["target"], config, fail, start_rows)
+        else:
+            cfg_obj.output_buffer = io.StringIO()
+            tgt = script["target"]
+            res, orc = oi.run_command(cfg_obj, script["bodies"], rev_index, script["cmd"], tgt, "pysqlite", fail, sql=True)
+            text = cfg_obj.output_buffer.getvalue()
+        shutil.copyfile(base, work)
+        errors = oi.apply_script(work, text)
+        return res, orc, text, errors, oi.observe(work, rev_index)
+
+    for cfg_no, config in enumerate(configs):
+        res, ref, text, errors, fin = execute(config, None)
+        ctx.evaluation()
+        if res != "ok":
+            ctx.hist("reference_run", "offline " + res)
+            if res not in PLAN_ERRORS:
+                ctx.disagree("offline.reference", {"script": script, "config": config, "runner": runner}, {"res": res}, {"raised": False},
+                             note="offline run without injected failure raised")
+            continue
+        if errors:
+            ctx.disagree("offline.replay", {"script": script, "config": config, "runner": runner}, {"sql_errors": errors[:3]}, None,
+                         note="the emitted script of a run without failure does not apply")
+            continue
+        # version statements of each step, from the emitted script
+        steps = [dict(st, vstmts=[]) for st in ref.steps]
+        bad = []
+        for k, st in oi.split_script(text):
+            if "alembic_version" in st and st.split(None, 1)[0].upper() in ("INSERT", "UPDATE", "DELETE") and 0 <= k < len(steps):
+                v = oi.parse_version_stmt(st, rev_index)
+                (steps[k]["vstmts"].append(v) if v is not None else bad.append(st))
+        if bad:
+            ctx.disagree("online.parse", {"script": script, "config": config, "runner": runner}, {"unparsed": bad[:3]}, None)
+            continue
+        plan = build_plan(steps, script["bodies"], rev_index)
+        tddl = bool(ref.tddl_seen)
+        base_inp = {"mode": "transactional" if tddl else "pysqlite", "tddl": tddl, "perMig": bool(config["perMig"]), "external": False,
+                    "pre": [{"k": "ddl", "a": ["cvt"]}] if not db0["vt"] else [], "plan": plan,
+                    "db": {k: db0[k] for k in ("objs", "rows", "vt")}, "upgrade": script["cmd"] == "upgrade", "parents": parents, "shape": "stock"}
+        meta = {"runner": runner, "config": config, "script": script, "spec_only": True}
+        nonexc = ["keyboardInterrupt", "systemExit", "baseException"]
+        for k, mig in enumerate(plan):
+            nb = n_atoms(mig) - len(mig["vstmts"])
+            # body positions (before each atom: outside and inside autocommit blocks) and, in-process, the on_version_apply
+            # hook = "after the version update".  Offline no cursor event exists for the version statements, so the oracle's
+            # counter stands at nb when the hook runs and there is no position between body and version update.
+            positions = list(range(0, nb)) + ([n_atoms(mig)] if runner == "offline" else [])
+            for pos in positions:
+                for kind in ("exception", nonexc[(k + pos + cfg_no) % 3]):
+                    opos = nb if pos == n_atoms(mig) else pos
+                    res, orc, text, errors, fin = execute(config, (k, opos, kind))
+                    ctx.evaluation()
+                    rec = {"script": script, "config": config, "runner": runner, "fail": [k, pos, kind]}
+                    if orc.fired is None:
+                        ctx.hist("offline_failure_not_reached", "%s" % runner)
+                        continue
+                    if res == "ok":
+                        ctx.fail(dict(rec, input=dict(base_inp, fail={"k": k, "pos": pos, "kind": kind})),
+                                 "swallowed: a migration raised in --sql mode but the command completed without error",
+                                 impl={"res": res, "script_tail": text[-600:]}, tags=["swallowed"])
+                    if errors:
+                        ctx.disagree("offline.replay", rec, {"sql_errors": errors[:3], "res": res}, None,
+                                     note="the emitted script does not apply statement by statement")
+                        continue
+                    jk, jpos, jres = k, pos, (res if res != "ok" else "boom")
+                    if pos == n_atoms(mig) and not tddl:
+                        # without transactional DDL an offline script has no transaction framing: when the hook raises, all
+                        # statements of migration k AND its version statement are already in the script, i.e. for the script
+                        # migration k is complete and recorded; the failure is judged as one before the next migration
+                        # (or, after the last migration, as a complete run)
+                        ctx.hist("offline_hook_failure_without_tddl", "judged as failure before the next migration")
+                        if k + 1 < len(plan):
+                            jk, jpos = k + 1, 0
+                        else:
+                            yield dict(base_inp, fail=None), {"res": "ok", "final": fin, "eff": None}, meta
+                            continue
+                    yield (dict(base_inp, fail={"k": jk, "pos": jpos, "kind": kind}),
+                           {"res": jres, "final": fin, "eff": [jk, jpos]}, meta)
+
+
+def offline_battery(ctx, pending, script, configs, runner):
+    if has_batch(script):
+        return  # batch_alter_table needs reflection: not available in --sql mode
+    with oi.Scratch() as scratch:
+        for case in offline_cases(ctx, script, configs, scratch, runner):
+            pending.append(case)
+            ctx.hist("steps", len(case[0]["plan"]))
+
+
+OFFLINE_CFGS = [{"engine": "offline", "tddl": t, "perMig": pm, "external": False} for t in (None, True) for pm in (False, True)]
+
+
 class _Stub:
     """what run_script needs from a Ctx, collected in a worker process and merged by the parent"""
 
@@ -755,7 +887,9 @@ def _work(job):
     script, configs, runner, thorough = job
     stub = _Stub(thorough)
     pending = []
-    if runner == "multidb":
+    if runner in ("offline", "command-sql"):
+        offline_battery(stub, pending, script, configs, runner)
+    elif runner == "multidb":
         multidb_battery(stub, pending)
     elif runner == "twodb":
         twodb_battery(stub, pending, thorough)
@@ -829,7 +963,7 @@ def exhaustive_scripts(max_len=2):
 
 def run(ctx, n_scripts=None, rng_name="main"):
     rng = ctx.rng(rng_name)
-    n = n_scripts if n_scripts is not None else (1000 if ctx.thorough else 6)
+    n = n_scripts if n_scripts is not None else (1000 if ctx.thorough else 5)
     pending = []
     fixed = fixed_scripts()
     jobs = []
@@ -845,7 +979,7 @@ def run(ctx, n_scripts=None, rng_name="main"):
     # the "after the version update" position - an on_version_apply hook - reachable on the command path)
     env_cfgs = [{"engine": e, "tddl": t, "perMig": pm, "external": False, "env": "patched"}
                 for e in ("pysqlite", "recipe") for t in (None, True) for pm in (False, True)]
-    jobs.append((dict(fixed[0], all_kinds=False), env_cfgs, "command"))
+    jobs.append((dict(fixed[0], all_kinds=False), env_cfgs if ctx.thorough else env_cfgs[::2] + env_cfgs[7:], "command"))
     jobs.append((dict(fixed[1], all_kinds=False), env_cfgs[1::2] if not ctx.thorough else env_cfgs, "command"))
     # env.py variants on the command path (patched generic env.py): every non-stock shape x a sample of the settings
     # (all settings in the thorough tier) x every failure position
@@ -883,8 +1017,13 @@ def run(ctx, n_scripts=None, rng_name="main"):
     for i in range(n):
         script = gen_script(rng, 4 if not ctx.thorough else 6)
         jobs.append((script, with_shapes(all_configs(rng, ctx.thorough), i), "inprocess"))
+        jobs.append((script, OFFLINE_CFGS if ctx.thorough else OFFLINE_CFGS[i % 4:i % 4 + 1] + OFFLINE_CFGS[(i + 3) % 4:(i + 3) % 4 + 1], "offline"))
         if i % 4 == 0:
             jobs.append((script, cmd_cfgs + [env_cfgs[(i // 4) % len(env_cfgs)]], "command"))
+    # offline (--sql) stream: failures in the body, outside and inside autocommit blocks, and in the hook
+    for s in fixed[:2]:
+        jobs.append((s, OFFLINE_CFGS, "offline"))
+    jobs.append((fixed[0], OFFLINE_CFGS[:1], "command-sql"))
     jobs.append(("multidb", None, "multidb"))
     jobs.append(("twodb", None, "twodb"))
     if ctx.thorough and rng_name == "main":
